@@ -145,9 +145,11 @@ impl GraphEngine {
                 };
 
                 // Find common neighbors (complete the triangle)
-                // Require w > v to ensure each triangle is counted exactly once
+                // Require w to be the highest id of the three to ensure each triangle is
+                // counted exactly once: (u, v) is oriented by degree, not by id, so w > v
+                // alone lets the same triangle be found again from another of its edges.
                 for &w in u_neighbors {
-                    if w > v && v_neighbors.contains(&w) {
+                    if w > v && w > u && v_neighbors.contains(&w) {
                         // Found triangle (u, v, w) where u < v < w
                         triangle_count += 1;
                         *node_triangles.entry(u).or_insert(0) += 1;
